@@ -14,10 +14,10 @@ TRUSTED_BASE_COMMON = [
 OUT, REC, VOL, HIS, CMP, CON = 1, 2, 4, 8, 16, 32
 _ALL = {
     "C01": {"suites": ["prog", "wells", "save"], "mask": {"prog": OUT | REC | VOL | CMP | CON}},
-    "C02": {"suites": ["prog", "evocmd", "ctor", "floatops"], "mask": {"prog": OUT | VOL | CON, "evocmd": OUT | VOL | CON}},
+    "C02": {"suites": ["prog", "evocmd", "ctor", "floatops", "save"], "mask": {"prog": OUT | VOL | CON, "evocmd": OUT | VOL | CON}},
     "C03": {"suites": ["prog", "evocmd", "save"], "mask": {"prog": OUT | REC | VOL | CON, "evocmd": OUT | REC | VOL | CON}},
     "C04": {"suites": ["prog", "evocmd"], "mask": {"prog": OUT | VOL | CON, "evocmd": OUT | VOL | CON}},
-    "C05": {"suites": ["prog", "ctor"], "mask": {"prog": VOL | CMP | CON}},
+    "C05": {"suites": ["prog", "ctor", "evocmd"], "mask": {"prog": VOL | CMP | CON, "evocmd": VOL | CMP | CON}},
     "C06": {"suites": ["pvol", "prog", "params"], "mask": {"prog": OUT | REC, "params": OUT | REC}},
     "C07": {"suites": ["prog", "pcol"], "mask": {"prog": OUT | REC}},
     "C08": {"suites": ["wells", "prog"], "mask": {"prog": OUT | REC}},
